@@ -101,13 +101,17 @@ def make_signal(N, K):
         ns.sampling_start_time = datetime.datetime.now()
         ns.checkpoint_callback = None
         ns.resume_file = "resume.pkl"
+        # a periodic checkpoint is not due: only a forced one may write
+        ns.checkpoint_on_iteration = True
+        ns.checkpoint_interval = 1000
+        ns._last_checkpoint = 1
         ns.debug_enabled = False
         ns.proposal = c01.StubProposal(ctx, dt, K, tag0=100, specials=False, nonfinite_prior=False, nonzero=True)
         pre_tags = set(range(N)) | {50}
 
         fsam = FlowSampler.__new__(FlowSampler)
         fsam.ns = ns
-        fsam.exit_code = 130 + ctx.choice("exit_code", 2)
+        fsam.exit_code = [130, 0, 5][ctx.choice("exit_code", 3)]
         signum = [15, 2, 14][ctx.choice("signal", 3)]
         snap = {}
 
